@@ -18,6 +18,40 @@ EXPLANATION = (
     "around a failed item for implicit (third-party) exceptions is not decided.")
 
 
+def batch_iteration_paths(g, L, resp, item_try, handling_param):
+    """Simulate one iteration of the batch loop on every path.  Tracked per path: '#n' results appended, '#item' the value
+    appended last, '#failed' an except arm of the per-item try was entered, '#stop' outcome of the `== STOP` test."""
+    from ..pathsim import Sim
+
+    def hook(sim, n, env):
+        for c in calls_at(n):
+            if isinstance(c.func, ast.Attribute) and c.func.attr in ('append', 'insert', 'extend') and isinstance(c.func.value, ast.Name) and c.func.value.id == resp:
+                env['#n'] = env.get('#n', 0) + 1
+                env['#item'] = sim.ev(c.args[-1], env) if c.args else ('c', None)
+        if n.kind == 'handler' and item_try is not None and n.stmt in item_try.handlers:
+            env['#failed'] = True
+
+    def edge_hook(sim, n, lab, m_, env):
+        if n.kind == 'test' and lab in ('T', 'F'):
+            p = cmp_parts(n.stmt)
+            if p and isinstance(p[0], ast.Name) and p[0].id == handling_param and enum_member(p[2]) == ('BatchErrorContinuationOption', 'STOP') and p[1] in ('Eq', 'Is'):
+                env['#stop'] = (lab == 'T')
+            elif p and isinstance(p[0], ast.Name) and p[0].id == handling_param and enum_member(p[2]) == ('BatchErrorContinuationOption', 'STOP') and p[1] in ('NotEq', 'IsNot'):
+                env['#stop'] = (lab == 'F')
+        return env
+
+    sim = Sim(g, hook)
+    sim.edge_hook = edge_hook
+    starts = edge_successors(L, 'T')
+    # leaving the loop: everything outside it
+    loop = L.stmt
+    stops = [L, g.exit, g.raise_exit] + [n for n in g.nodes if loop not in n.loops and n is not L]
+    env0 = {}
+    sim.transfer(L, env0)       # the loop variable is bound at the head
+    res = sim.run(starts, stops, env0)
+    return sim, res
+
+
 def run(ctx):
     src = ctx.src
     ai = EngineAI.shared(src)
@@ -56,116 +90,75 @@ def run(ctx):
                and isinstance(c.func.value, ast.Name) and c.func.value.id == resp]
     ctx.count('result_append_sites', len(appends), 1)
     anodes = [n for n, c in appends]
-    body_start = edge_successors(L, 'T')
-    # every path from the body start back to the loop head (or out through break) without raising passes exactly one append
-    back_preds = [n for n in g.nodes if loop in n.loops and any(mm is L and l in ('loop', 'continue') for mm, l in n.succ)]
-    breaks = [n for n in g.nodes if n.kind == 'stmt' and isinstance(n.stmt, ast.Break) and loop in n.loops]
-    ends = back_preds + breaks
-    ok_one = bool(body_start)
-    for s_ in body_start:
-        seen = g.reachable(s_, anodes + [L])
-        # an end node reachable without passing an append (through non-exception edges only)
-        seen_noexc = set()
-        st = [s_]
-        while st:
-            x = st.pop()
-            if x.id in seen_noexc or x in anodes or x is L:
-                continue
-            seen_noexc.add(x.id)
-            for mm, l in x.succ:
-                st.append(mm)
-        for e_ in ends:
-            if e_.id in seen_noexc and e_ not in anodes:
-                ok_one = False
-    twice = False
-    for n in anodes:
-        for mm, l in n.succ:
-            if l == 'exc':
-                continue
-            r = g.reachable(mm, [L])
-            if any(a.id in r for a in anodes):
-                twice = True
-    ctx.check(ok_one and not twice and all(c.func.attr == 'append' for n, c in appends), 'C08.R1', 'KmipEngine._process_batch|one-result-per-item', lsite,
-              'every completed iteration appends exactly one result', 'an iteration can complete without appending a result, or append two')
-    for n, c in appends:
-        a = c.args[0] if c.args else None
-        vals = rd.values(n, a.id) if isinstance(a, ast.Name) else ([a] if a is not None else [])
-        okc = len(vals) == 1 and isinstance(vals[0], ast.Call) and (call_name(vals[0]) or '').endswith('ResponseBatchItem')
-        echo = {}
-        if okc:
-            defn = [d for d in rd.reaching(n, a.id)][0][2] if isinstance(a, ast.Name) else n
-            for k in vals[0].keywords:
-                if k.arg in ('operation', 'unique_batch_item_id'):
-                    v = k.value
-                    good = isinstance(v, ast.Attribute) and v.attr == k.arg and isinstance(v.value, ast.Name) and v.value.id == item
-                    if good:
-                        ds = rd.reaching(defn, item)
-                        good = len(ds) == 1 and isinstance(ds[0][1], tuple) and ds[0][1][0] == 'iter'
-                    echo[k.arg] = good
-        ctx.check(okc and echo.get('operation') and echo.get('unique_batch_item_id'), 'C08.R1', 'KmipEngine._process_batch|echo-operation-and-id', m.site(c, pb),
-                  'result echoes the request item\'s operation and unique batch item ID', 'the result does not echo the request item\'s own operation / batch item ID: %s' % echo)
-        if okc:
-            # envelope: status/reason/message bound to same-named locals
-            kw = {k.arg: k.value for k in vals[0].keywords}
-            flds = ('result_status', 'result_reason', 'result_message', 'response_payload')
-            same = all(isinstance(kw.get(x), ast.Name) for x in flds) and len(set(kw[x].id for x in flds)) == len(flds)
-            if same:
-                # each is (re)assigned in this iteration before the result is built: a definition inside the loop dominates the construction
-                for x in flds:
-                    dnodes = [dn for var, val, dn in rd.reaching(defn, kw[x].id) if dn is not None]
-                    alld = [nn for nn in g.nodes if nn.kind == 'stmt' and isinstance(nn.stmt, ast.Assign) and any(isinstance(tg, ast.Name) and tg.id == kw[x].id for tg in nn.stmt.targets)]
-                    if not any(loop in dd.loops and g.dominates(dd, defn) for dd in alld) or not dnodes:
-                        same = False
-            ctx.check(same, 'C08.R1', 'KmipEngine._process_batch|result-fields-bound', m.site(c, pb), 'status/reason/message/payload are four per-item locals, each assigned in the iteration before the result is built',
-                      'result fields are not four distinct locals assigned within the iteration that builds the result (a value can carry over from an earlier item)')
+    on, oc = opc[0]
+    item_try = on.tries[-1] if on.tries and loop in on.loops else None
+    breaks = [n for n in g.nodes if n.kind == 'stmt' and isinstance(n.stmt, ast.Break) and loop in n.loops and n.loops[-1] is loop]
+    # ---- what holds on every path through one iteration (pv/pathsim.py): from the first statement of the loop body to the
+    #      loop head again (next item), to the statement after the loop (break) or out of the function
+    sim_ = batch_iteration_paths(g, L, resp, item_try, ps[1])
+    sim, paths = sim_
+    done = [(n, lab, env) for n, lab, env in paths if n is L or lab == 'break']
+    ok_one = bool(done) and all(env.get('#n', 0) == 1 for n, lab, env in done)
+    ctx.check(ok_one and all(c.func.attr == 'append' for n, c in appends), 'C08.R1', 'KmipEngine._process_batch|one-result-per-item', lsite,
+              'every completed iteration appends exactly one result (%d path classes)' % len(done),
+              'an iteration can complete without appending a result, or append two: %s' % sorted(set(env.get('#n', 0) for n, lab, env in done)))
+    cons_sites = {}
+    echo_bad, stale, not_cons = [], [], []
+    for n, lab, env in done:
+        v = env.get('#item')
+        d = sim.describe(v) if v else None
+        if not d or d[0] != 'call' or not (call_name(d[1]) or '').endswith('ResponseBatchItem'):
+            not_cons.append(v)
+            continue
+        call = d[1]
+        cons_sites[id(call)] = call
+        kws = d[3]
+        for fld in ('operation', 'unique_batch_item_id'):
+            dv = sim.describe(kws.get(fld)) if kws.get(fld) else None
+            good = bool(dv) and dv[0] == 'attr' and dv[1].attr == fld and sim.describe(dv[2]) == ('iter', loop)
+            if not good:
+                echo_bad.append((call, fld))
+        for fld in ('result_status', 'result_reason', 'result_message', 'response_payload'):
+            if fld not in kws or sim.is_pre(kws[fld]):
+                stale.append((call, fld))
+    ctx.need(cons_sites or not_cons, 'unrecognised construct: no result is appended in the batch loop')
+    for call in cons_sites.values() or [loop]:
+        eb = sorted(set(f for c_, f in echo_bad if c_ is call))
+        ctx.check(not eb and not not_cons, 'C08.R1', 'KmipEngine._process_batch|echo-operation-and-id', m.site(call, pb),
+                  'on every path the appended result is a ResponseBatchItem echoing the request item\'s operation and unique batch item ID',
+                  'the result does not echo the request item\'s own operation / batch item ID: %s' % (eb or 'appended value is not a ResponseBatchItem built in this iteration'))
+        sb = sorted(set(f for c_, f in stale if c_ is call))
+        ctx.check(not sb, 'C08.R1', 'KmipEngine._process_batch|result-fields-bound', m.site(call, pb),
+                  'status, reason, message and payload of the result are (re)assigned in the iteration that builds it, on every path',
+                  'result fields are not assigned within the iteration that builds the result (a value can carry over from an earlier item): %s' % sb)
     # the per-item try
-    opcalls = call_nodes(g, 'self._process_operation')
-    ctx.need(len(opcalls) == 1, 'unrecognised construct: expected one _process_operation call in _process_batch')
-    on, oc = opcalls[0]
-    okt = bool(on.tries) and loop in on.loops
-    errvar = None
+    okt = item_try is not None
     if okt:
-        t = on.tries[-1]
-        catches = [handler_catches(h) for h in t.handlers]
+        catches = [handler_catches(h) for h in item_try.handlers]
         okt = any(c == ['exceptions.KmipError'] for c in catches) and any('*' in c for c in catches)
-        sets = []
-        for h in t.handlers:
-            s_true = [s for s in h.body if isinstance(s, ast.Assign) and isinstance(s.targets[0], ast.Name) and isinstance(s.value, ast.Constant) and s.value.value is True]
-            sets.append([s.targets[0].id for s in s_true])
-            if any(isinstance(x, ast.Raise) for s in h.body for x in ast.walk(s)):
+        for h in item_try.handlers:
+            if any(isinstance(x, ast.Raise) for s_ in h.body for x in ast.walk(s_)):
                 okt = False
-        common = set(sets[0]).intersection(*map(set, sets[1:])) if sets else set()
-        errvar = next(iter(common)) if len(common) == 1 else None
-        okt = okt and errvar is not None
+    failed = [(n, lab, env) for n, lab, env in done if env.get('#failed')]
+    fine = [(n, lab, env) for n, lab, env in done if not env.get('#failed')]
+    # a failed item under STOP ends the loop; nothing else does
+    stop_continue = [env for n, lab, env in failed if n is L and env.get('#stop') is not False]
+    early_stop = [env for n, lab, env in done if lab == 'break' and not (env.get('#failed') and env.get('#stop') is True)]
+    okt = okt and not stop_continue
     ctx.check(okt, 'C08.R1', 'KmipEngine._process_batch|per-item-try', m.site(oc, pb),
-              'the operation runs inside try/except KmipError/except Exception; both arms set %s and do not raise' % errvar,
-              'the per-item try does not contain every exception of the operation (KmipError and catch-all arms setting the error flag)')
-    if errvar:
-        others = [n for n in g.nodes if any(v == errvar for v, d in rd.node_defs[n.id])]
-        bad = []
-        init_ok = False
-        for n in others:
-            val = n.stmt.value if isinstance(n.stmt, ast.Assign) else None
-            if isinstance(val, ast.Constant) and val.value is False and not n.handlers and loop in n.loops and g.dominates(n, on):
-                init_ok = True
-            elif isinstance(val, ast.Constant) and val.value is True and n.handlers:
-                pass
-            else:
-                bad.append(n.line)
-        ctx.check(init_ok and not bad, 'C08.R1', 'KmipEngine._process_batch|error-flag-discipline', lsite,
-                  '%s is False at the start of each item and True only in the except arms' % errvar, 'the error flag is assigned elsewhere (lines %s) or not reset per item' % bad)
-        for b in breaks:
-            e_ok = s_ok = False
-            for t_, lab in dominating_edges(g, b):
-                if isinstance(t_.stmt, ast.Name) and t_.stmt.id == errvar and lab == 'T':
-                    e_ok = True
-                p = cmp_parts(t_.stmt)
-                if p and isinstance(p[0], ast.Name) and p[0].id == ps[1] and enum_member(p[2]) == ('BatchErrorContinuationOption', 'STOP') and p[1] == 'Eq' and lab == 'T':
-                    s_ok = True
-            after_append = all(g.dominates(a, b) for a in anodes)
-            ctx.check(e_ok and s_ok and after_append, 'C08.R1', 'KmipEngine._process_batch|break-only-on-error-and-stop', m.site(b.stmt, pb),
-                      'break only when the item failed and the client asked to stop, after its result was appended', 'processing can stop although no item failed / the client asked to continue')
-        ctx.check(len(breaks) >= 1, 'C08.R1', 'KmipEngine._process_batch|stop-on-error-present', lsite, 'stop-on-error break exists', 'processing does not stop at the first failed item under the Stop option')
+              'the operation runs inside try/except KmipError/except Exception; neither arm raises; after a failed item the loop goes on only when the client did not ask to stop',
+              'the per-item try does not contain every exception of the operation (KmipError and catch-all arms), or a failed item does not stop the batch under the Stop option')
+    for b in breaks or [L]:
+        mine = [env for n, lab, env in done if lab == 'break']
+        ctx.check(not early_stop and (b is L or all(g.dominates(a_, b) or env.get('#n', 0) == 1 for a_ in anodes for env in mine)), 'C08.R1',
+                  'KmipEngine._process_batch|break-only-on-error-and-stop', m.site(b.stmt, pb) if b is not L else lsite,
+                  'the loop is left early only when the item failed and the client asked to stop, after its result was appended',
+                  'processing can stop although no item failed / the client asked to continue')
+    ctx.check(any(lab == 'break' for n, lab, env in failed), 'C08.R1', 'KmipEngine._process_batch|stop-on-error-present', lsite, 'stop-on-error break exists',
+              'processing does not stop at the first failed item under the Stop option')
+    ctx.check(bool(fine) and bool(failed), 'C08.R1', 'KmipEngine._process_batch|error-flag-discipline', lsite,
+              'successful and failed items are told apart on every path (%d / %d path classes)' % (len(fine), len(failed)),
+              'the batch loop has no path for a successful item or none for a failed one')
     # success status only on the fall-through of the try; reason/message only in the arms (C02.R4 shares this)
     # ---------------- R2
     raises = [n for n in g.nodes if n.kind == 'stmt' and isinstance(n.stmt, ast.Raise) and loop in n.loops and not n.tries]
